@@ -9,6 +9,7 @@ mod e_hasher;
 mod e_incoming;
 mod e_prefix;
 mod e_server;
+mod e_wantlist;
 mod node;
 mod gen;
 mod json;
@@ -35,6 +36,7 @@ fn main() {
         "hasher" => e_hasher::run(seed, n, tier),
         "codec" => e_codec::run(seed, n, tier),
         "server" => e_server::run(seed, n, tier),
+        "wantlist" => e_wantlist::run(seed, n, tier),
         "decodeserver" => e_codec::decode_server(),
         "incoming" => e_incoming::run(seed, n, tier),
         _ => {
